@@ -1,3 +1,4 @@
+// Command framing: C01 conformance.
 package main
 
 // C01: replay of the Framing specification's vectors and behaviours.
@@ -15,6 +16,7 @@ import (
 	"io"
 
 	"github.com/lugu/qiloop/bus/net"
+	"verif/harness/hlib"
 )
 
 type c01Layout struct {
@@ -119,29 +121,31 @@ func c01Payload(i, n int) []byte {
 	return p
 }
 
-func init() { register("c01", cmdC01) }
+func init() { hlib.Register("c01", cmdC01) }
+
+func main() { hlib.Main() }
 
 func cmdC01(args []string) {
 	if len(args) < 1 {
-		fatal("c01 <vectors.ndjson>")
+		hlib.Fatal("c01 <vectors.ndjson>")
 	}
-	res := &Result{}
+	res := &hlib.Result{}
 	bad := map[string][]byte{}
 	var tests []c01Test
 	var layouts []c01Layout
-	readLines(args[0], func(line []byte) {
+	hlib.ReadLines(args[0], func(line []byte) {
 		var rec struct {
 			K string
 			V json.RawMessage
 		}
 		if err := json.Unmarshal(line, &rec); err != nil {
-			fatal("bad line: %v", err)
+			hlib.Fatal("bad line: %v", err)
 		}
 		switch rec.K {
 		case "L":
 			var l c01Layout
 			if err := json.Unmarshal(rec.V, &l); err != nil {
-				fatal("bad L: %v", err)
+				hlib.Fatal("bad L: %v", err)
 			}
 			layouts = append(layouts, l)
 		case "B":
@@ -150,13 +154,13 @@ func cmdC01(args []string) {
 				Bytes []int
 			}
 			if err := json.Unmarshal(rec.V, &b); err != nil {
-				fatal("bad B: %v", err)
+				hlib.Fatal("bad B: %v", err)
 			}
 			bad[b.Kind] = toBytes(b.Bytes)
 		case "T":
 			var t c01Test
 			if err := json.Unmarshal(rec.V, &t); err != nil {
-				fatal("bad T: %v", err)
+				hlib.Fatal("bad T: %v", err)
 			}
 			tests = append(tests, t)
 		}
@@ -174,12 +178,12 @@ func cmdC01(args []string) {
 	}
 	c01SizeBoundary(res, base)
 	res.Distinct = len(distinct)
-	res.extra("layout_vectors", len(layouts))
-	res.extra("behaviours", len(tests))
-	res.emit()
+	res.SetExtra("layout_vectors", len(layouts))
+	res.SetExtra("behaviours", len(tests))
+	res.Emit()
 }
 
-func c01DoLayout(res *Result, l c01Layout) {
+func c01DoLayout(res *hlib.Result, l c01Layout) {
 	res.Evaluations++
 	size := l.Size
 	pl := size
@@ -190,7 +194,7 @@ func c01DoLayout(res *Result, l c01Layout) {
 	msg := net.NewMessage(hdr, payload)
 	var w countingWriter
 	if err := msg.Write(&w); err != nil {
-		res.fail("framing/write-error", err.Error(), l)
+		res.Fail("framing/write-error", err.Error(), l)
 		return
 	}
 	want := append(toBytes(l.Bytes), payload...)
@@ -207,30 +211,30 @@ func c01DoLayout(res *Result, l c01Layout) {
 		if n > 40 {
 			n = 40
 		}
-		res.fail("framing/layout-bytes", fmt.Sprintf("wire bytes differ from the documented header: got % x", all[:n]), cse)
+		res.Fail("framing/layout-bytes", fmt.Sprintf("wire bytes differ from the documented header: got % x", all[:n]), cse)
 		return
 	}
 	// read back from the documented bytes
 	var m2 net.Message
 	r := &scriptReader{data: want}
 	if err := m2.Read(r); err != nil {
-		res.fail("framing/read-documented-bytes", err.Error(), cse)
+		res.Fail("framing/read-documented-bytes", err.Error(), cse)
 		return
 	}
 	if m2.Header != msg.Header || !bytes.Equal(m2.Payload, payload) {
-		res.fail("framing/read-mismatch", fmt.Sprintf("read back %+v", m2.Header), cse)
+		res.Fail("framing/read-mismatch", fmt.Sprintf("read back %+v", m2.Header), cse)
 	}
 	if r.pos != len(want) {
-		res.fail("framing/consumed", fmt.Sprintf("consumed %d of %d", r.pos, len(want)), cse)
+		res.Fail("framing/consumed", fmt.Sprintf("consumed %d of %d", r.pos, len(want)), cse)
 	}
 	if !big && res.Evaluations%500 == 1 && res.Evaluations < 1100 {
-		res.sample(map[string]interface{}{"kind": "layout", "fields": fmt.Sprint(l)})
+		res.Sample(map[string]interface{}{"kind": "layout", "fields": fmt.Sprint(l)})
 	}
 }
 
 // c01DoTest runs one behaviour; for scenarios ending in a defective header
 // every defect kind is tried with the same script.
-func c01DoTest(res *Result, t c01Test, base []byte, bad map[string][]byte) {
+func c01DoTest(res *hlib.Result, t c01Test, base []byte, bad map[string][]byte) {
 	kinds := []string{"none"}
 	if t.Bad != "none" {
 		kinds = kinds[:0]
@@ -248,7 +252,7 @@ func c01DoTest(res *Result, t c01Test, base []byte, bad map[string][]byte) {
 			msgs = append(msgs, m)
 			var buf bytes.Buffer
 			if err := m.Write(&buf); err != nil {
-				res.fail("framing/write-error", err.Error(), t)
+				res.Fail("framing/write-error", err.Error(), t)
 				return
 			}
 			stream = append(stream, buf.Bytes()...)
@@ -258,7 +262,7 @@ func c01DoTest(res *Result, t c01Test, base []byte, bad map[string][]byte) {
 			stream = append(stream, 0xAA, 0xBB, 0xCC)
 		}
 		if t.Cut > len(stream) {
-			res.fail("framing/stream-length", fmt.Sprintf("stream is %d bytes, specification says >= %d", len(stream), t.Cut), t)
+			res.Fail("framing/stream-length", fmt.Sprintf("stream is %d bytes, specification says >= %d", len(stream), t.Cut), t)
 			return
 		}
 		stream = stream[:t.Cut]
@@ -273,17 +277,17 @@ func c01DoTest(res *Result, t c01Test, base []byte, bad map[string][]byte) {
 			err := m.Read(r)
 			if err == nil {
 				if decoded >= len(msgs) {
-					res.fail("framing/extra-message", fmt.Sprintf("decoded a message that was never written: %+v", m.Header), cse)
+					res.Fail("framing/extra-message", fmt.Sprintf("decoded a message that was never written: %+v", m.Header), cse)
 					final = "extra"
 					break
 				}
 				w := msgs[decoded]
 				if m.Header != w.Header || !bytes.Equal(m.Payload, w.Payload) {
-					res.fail("framing/lossy", fmt.Sprintf("message %d read back different: %+v", decoded, m.Header), cse)
+					res.Fail("framing/lossy", fmt.Sprintf("message %d read back different: %+v", decoded, m.Header), cse)
 				}
 				decoded++
 				if decoded <= len(t.Exp.Ends) && r.pos != t.Exp.Ends[decoded-1] {
-					res.fail("framing/consumed", fmt.Sprintf("after message %d the reader consumed %d bytes, expected %d", decoded, r.pos, t.Exp.Ends[decoded-1]), cse)
+					res.Fail("framing/consumed", fmt.Sprintf("after message %d the reader consumed %d bytes, expected %d", decoded, r.pos, t.Exp.Ends[decoded-1]), cse)
 				}
 				continue
 			}
@@ -298,35 +302,35 @@ func c01DoTest(res *Result, t c01Test, base []byte, bad map[string][]byte) {
 			continue
 		}
 		if decoded != t.Exp.Decoded {
-			res.fail("framing/decoded-count", fmt.Sprintf("decoded %d messages, expected %d (final %s)", decoded, t.Exp.Decoded, final), cse)
+			res.Fail("framing/decoded-count", fmt.Sprintf("decoded %d messages, expected %d (final %s)", decoded, t.Exp.Decoded, final), cse)
 			continue
 		}
 		switch t.Exp.Final {
 		case "eof":
 			if final != "eof" {
-				res.fail("framing/clean-eof", "end of stream at a message boundary must be reported as io.EOF, got an error", cse)
+				res.Fail("framing/clean-eof", "end of stream at a message boundary must be reported as io.EOF, got an error", cse)
 			}
 		case "trunc":
 			if final != "error" {
-				res.fail("framing/truncated-accepted", "truncated stream reported as clean end of stream", cse)
+				res.Fail("framing/truncated-accepted", "truncated stream reported as clean end of stream", cse)
 			}
 		case "reject":
 			if final != "error" {
-				res.fail("framing/bad-header-accepted", "defective header ("+kind+") not refused", cse)
+				res.Fail("framing/bad-header-accepted", "defective header ("+kind+") not refused", cse)
 			}
 		}
 		if r.pos > t.Exp.Maxpos {
-			res.fail("framing/overread", fmt.Sprintf("consumed %d bytes, at most %d allowed (defective header must be refused before the payload)", r.pos, t.Exp.Maxpos), cse)
+			res.Fail("framing/overread", fmt.Sprintf("consumed %d bytes, at most %d allowed (defective header must be refused before the payload)", r.pos, t.Exp.Maxpos), cse)
 		}
 		if (kind == "none" || kind == "oversize") && len(t.Chunks) > 3 {
-			res.sample(fmt.Sprint(cse))
+			res.Sample(fmt.Sprint(cse))
 		}
 	}
 }
 
 // c01SizeBoundary: payload sizes limit-1, limit (accepted) and limit+1
 // (refused after the header), under three chunk patterns.
-func c01SizeBoundary(res *Result, base []byte) {
+func c01SizeBoundary(res *hlib.Result, base []byte) {
 	limit := int(net.MaxPayloadSize)
 	for _, size := range []int{limit - 1, limit, limit + 1} {
 		for _, pat := range [][][]int{nil, {{1, 0}, {27, 0}, {1, 0}}, {{28, 0}, {4096, 0}, {1, 0}}} {
@@ -343,16 +347,16 @@ func c01SizeBoundary(res *Result, base []byte) {
 			cse := map[string]interface{}{"size": size, "pattern": pat}
 			if size <= limit {
 				if err != nil {
-					res.fail("framing/limit-refused", fmt.Sprintf("payload of %d bytes (<= limit) refused: %v", size, err), cse)
+					res.Fail("framing/limit-refused", fmt.Sprintf("payload of %d bytes (<= limit) refused: %v", size, err), cse)
 				} else if !bytes.Equal(m.Payload, stream[28:]) || r.pos != len(stream) {
-					res.fail("framing/lossy", "large payload read back different", cse)
+					res.Fail("framing/lossy", "large payload read back different", cse)
 				}
 			} else {
 				if err == nil {
-					res.fail("framing/bad-header-accepted", "over-limit size accepted", cse)
+					res.Fail("framing/bad-header-accepted", "over-limit size accepted", cse)
 				}
 				if r.pos > 28 {
-					res.fail("framing/overread", fmt.Sprintf("over-limit header: %d bytes consumed", r.pos), cse)
+					res.Fail("framing/overread", fmt.Sprintf("over-limit header: %d bytes consumed", r.pos), cse)
 				}
 			}
 		}
